@@ -40,6 +40,7 @@ func C01(r *core.Run) {
 	anyContent(r)                                                                                       // an Any of an all-default message still carries (empty) content
 	oneofWrapperAllFields(r)                                                                            // an object with a `oneof type` and sibling fields is an object: as a oneof its populated values cannot be encoded
 	leniency(r)                                                                                         // the short enum name the encoder writes is looked up as given before any prefix is stripped
+	rules.AppendAlias(r, []string{"lib/j5schema", "lib/j5reflect", codecRel})                           // the proto path of a flattened property is its own: no two properties share a backing array
 	rules.PoolAlias(r, []string{codecRel})                                                              // encode(m) stays the encoding of m: it is not memory a later encode writes over
 }
 
